@@ -79,8 +79,8 @@ theorem ne_fsmNotificationReceived (s : Sess) (e sub : Nat) : NE s (s.fsmNotific
   unfold fsmNotificationReceived
   split
   · split
-    · exact ((ne_setRetry s _).trans (ne_closeConn _)).trans (ne_setSt _ _)
-    · exact ((ne_setRetry s _).trans (ne_closeConn _)).trans (ne_setSt _ _)
+    · exact ((((ne_setRetry s _).trans (ne_setHold _ _)).trans (ne_setKeepalive _ _)).trans (ne_closeConn _)).trans (ne_setSt _ _)
+    · exact ((((ne_setRetry s _).trans (ne_setHold _ _)).trans (ne_setKeepalive _ _)).trans (ne_closeConn _)).trans (ne_setSt _ _)
     · exact ne_errorClose _
     · exact ne_errorClose _
     · exact ne_errorClose _
